@@ -69,9 +69,9 @@ def main(c):
     c.cov["evaluations"] = total
     c.cov["distinct_nontrivial"] = nontrivial
     c.cov["exhaustive"] = True
-    c.cov["rule"] = ("every condition of the catalogue (5 prefix sets x any/invert, 4 AS-path sets and 2 community sets x any/all/"
+    c.cov["rule"] = ("every condition of the catalogue (7 prefix sets x any/invert, 4 AS-path sets and 2 community sets x any/all/"
                      "invert, AS-path length comparisons) x every route (15 prefixes x 7 AS paths x 5 community sets) and 72 "
-                     "two-statement policies x routes, each at 3 address embeddings; distinct = distinct (policy, route) cases")
+                     "two-statement policies x routes, each at 5 address embeddings (IPv4 at bit offsets 21, 8 and 0, IPv6 at 61 and 0 - at offset 0 the whole-space entries are the default routes); distinct = distinct (policy, route) cases")
     c.assumptions += ["defined sets, AS paths and communities are the fixed catalogue of Policy.tla (nested / overlapping / "
                       "below-own-length prefix entries, AS_SET, trailing empty segment); actions: set LOCAL_PREF, add community",
                       "RPKI, neighbour, ext/large-community and next-hop conditions are not in the catalogue"]
